@@ -358,6 +358,9 @@ class Identity(Module):
         return x
 
 
+_DROPOUT_CALLS = [0]
+
+
 class Dropout(Module):
     """eval-mode identity; in training mode the output is an arbitrary tensor (so that a missing
     .eval() is observable)"""
@@ -367,8 +370,11 @@ class Dropout(Module):
 
     def forward(self, x):
         if self.training:
-            f = z3.Function("dropout_train", z3.RealSort(), z3.RealSort())
-            return x._new(T._uf(lambda v: core.lift(f(_real(v))), 1)(x.a))
+            # an arbitrary function of the value AND of the call (a fresh mask per forward call)
+            f = z3.Function("dropout_train", z3.RealSort(), z3.IntSort(), z3.RealSort())
+            _DROPOUT_CALLS[0] += 1
+            k = _DROPOUT_CALLS[0]
+            return x._mk(T._uf(lambda v: core.lift(f(_real(v), z3.IntVal(k))), 1)(x.a), [x], lambda g: [g])
         return x
 
 
